@@ -596,8 +596,7 @@ Proof.
   intros dk p r v c b ctx H Hc. destruct (src_active_backend_spec _ _ _ _ _ _ _ H) as (_ & _ & Inc & Hctx & Hb & _).
   clear H. rewrite Hc in *. cbn zeta. unfold force_threads, force_processes in *. cbn [negb andb] in *.
   set (prefer := gcp p (c_prefer c) d_prefer) in *. set (require := gcp r (c_require c) d_require) in *.
-  assert (forall x y : Z, x = y -> (x =? y) = true) as Heq by (intros; lia).
-  repeat split.
+  split; [|split; [|split]].
   - intros Hr. assert (require =? 1 = true) as E3 by lia. rewrite E3 in *. rewrite andb_true_r in Inc. rewrite Inc in *.
     subst b. destruct dk, (prefer =? 1); cbn; reflexivity.
   - intros Hp. assert (prefer =? 1 = true) as E1 by lia. assert (prefer =? 2 = false) as E2 by lia. rewrite E1, E2 in *.
@@ -605,7 +604,6 @@ Proof.
   - intros Hp. assert (prefer =? 1 = false) as E1 by lia. assert (prefer =? 2 = true) as E2 by lia. rewrite E1, E2 in *.
     cbn [andb] in Inc. rewrite Inc in *. subst b. destruct dk; cbn; auto.
   - intros Hp Hr. assert (prefer =? 1 = false) as E1 by lia. assert (prefer =? 2 = false) as E2 by lia.
-    assert (require =? 1 = false) as E3 by lia. rewrite E1, E2, E3 in Hb. cbn in Hb. exact Hb.
-  - intros Hp Hr. assert (prefer =? 1 = false) as E1 by lia. assert (require =? 1 = false) as E3 by lia.
-    rewrite E1, E3 in Hctx. cbn in Hctx. exact Hctx.
+    assert (require =? 1 = false) as E3 by lia. rewrite E1, E2, E3 in *. cbn in Hb, Hctx. rewrite ?orb_false_r in *.
+    split; assumption.
 Qed.
